@@ -39,7 +39,7 @@ From TV Require Import Base.Prelude Base.Utf8 Base.Winnow Gen.Consts Spec.Abnf S
 From TV Require Import Model.Tree Model.Parse Model.Document Model.Encode.
 From TV Require Import Proofs.GrammarBase Proofs.PrintBackBase.
 From TV Require Import Proofs.WFSem Proofs.WFSemDoc Proofs.WFBool Proofs.WFBoolSound Proofs.WFPrintValue Proofs.WFTree Proofs.WFPrintTop Proofs.WFReparse
-                       Proofs.WFParseTop Proofs.WFReparseParsed.
+                       Proofs.WFParseTop Proofs.WFReparseParsed Proofs.WFReplay.
 Require Import String Ascii.
 
 (* ---- the backbone ------------------------------------------------------------------------------------------------------- *)
@@ -116,6 +116,28 @@ Theorem C03_general_reparse_partial : forall s d o,
 Proof. exact reparse_ordered. Qed.
 Print Assumptions C03_general_reparse_partial.
 
+(* ---- any order of the sections ------------------------------------------------------------------------------------------- *)
+(* `replay_stmts root` (Proofs/WFReplay.v): the own statements — header, then key/value lines with dotted keys
+   flattened — of the sections in Display's order (stable sort by position of the tree walk), computed from the tree
+   without printing.  The printed text of a tree satisfying every clause of WF but `order_ok` has a derivation with
+   exactly these statements; so if they are valid, the text is accepted and decodes to the tree they define.
+   (That they define the tree itself is WF_statements_define, proved for the walk order.) *)
+Theorem WF_print_parse_any_order : forall root trailing T,
+  (t_dotted root = false /\ tbl_wf true root /\ tbl_lim 0 0 root) -> raw_ok SDocTrail trailing ->
+  spec_run (replay_stmts root) = Valid T ->
+  exists d, parse_document (display_document root trailing) = POk d /\ abs_doc d = T.
+Proof. exact WF_print_parse_replay. Qed.
+Print Assumptions WF_print_parse_any_order.
+
+(* C03, general clause, as a certified check with NO other premise: `replay_check s d` runs the definition rules on
+   `replay_stmts` of the despanned tree and compares the result with the document's data.  It holds for documents whose
+   sections are in any order (wfb_ex_unordered_replay); it fails for class U1, as it must (wfb_ex_u1). *)
+Theorem C03_general_reparse_replay_partial : forall s d o,
+  parse_document s = POk d -> print_doc s d = Some o -> replay_check s d = true ->
+  exists d', parse_document o = POk d' /\ abs_doc d' = abs_doc d.
+Proof. exact reparse_replay. Qed.
+Print Assumptions C03_general_reparse_replay_partial.
+
 (* for any tree, parsed or not, with the facts given as premises *)
 Theorem C03_general_reparse_of_WF : forall s d r t,
   parse_document s = POk d -> tbl_despan s (doc_root d) = Some r -> raw_despan s (doc_trailing d) = Some t ->
@@ -165,7 +187,22 @@ Proof.
   destruct (parse_document ex_u1) as [d| |] eqn:E.
   - exists d. revert E. vm_compute. intro E. inversion E; subst d. eexists. eexists. eexists.
     split; [reflexivity|]. split; [reflexivity|]. split; [reflexivity|]. split; [reflexivity|]. split; [reflexivity|].
-    split; [reflexivity|]. split; [discriminate|]. split; reflexivity.
+    split; [reflexivity|]. split; [discriminate|]. split; [vm_compute; reflexivity|]. split; reflexivity.
+  - exfalso. revert E. vm_compute. discriminate.
+  - exfalso. revert E. vm_compute. discriminate.
+Qed.
+
+(* sections in orders that are not the order of the tree walk: a sub-table after an unrelated table, a super-table
+   given its header later, elements of an array of tables interleaved with other sections and with sub-tables of
+   the elements, dotted keys regrouped: `replay_check` holds, so C03_general_reparse_replay_partial applies *)
+Definition ex_unordered : bytes :=
+  txt ("a.b = 1" ++ lf ++ "c = 2" ++ lf ++ "a.d = 3" ++ lf ++ "[x.y]" ++ lf ++ "[x]" ++ lf ++ "[x.y.z]" ++ lf ++ "q.w=1" ++ lf
+       ++ "[x.y.q.v]" ++ lf ++ "[[r]]" ++ lf ++ "[s]" ++ lf ++ "[[r]]" ++ lf ++ "[r.u]" ++ lf ++ "[s.t]" ++ lf).
+Example wfb_ex_unordered_replay : exists d r, parse_document ex_unordered = POk d /\ tbl_despan ex_unordered (doc_root d) = Some r
+                                              /\ order_b r = false /\ replay_check ex_unordered d = true.
+Proof.
+  destruct (parse_document ex_unordered) as [d| |] eqn:E.
+  - exists d. revert E. vm_compute. intro E. inversion E; subst d. eexists. split; [reflexivity|]. split; [reflexivity|]. split; vm_compute; reflexivity.
   - exfalso. revert E. vm_compute. discriminate.
   - exfalso. revert E. vm_compute. discriminate.
 Qed.
